@@ -392,3 +392,55 @@ class F15RepeatedLimitZeroFirst(ReproBase):
         except TypeError as exc:
             self.fail('escaped exception (500 via FaultWrapper): %r' % exc)
         self.assertEqual(400, r.status_int)
+
+
+class F16LoneSurrogateInFreeText(ReproBase):
+    """C15: a JSON string holding a lone UTF-16 surrogate is valid JSON and
+    valid for every schema string without a pattern (provider name, project
+    and user id), but cannot be encoded for the database: oslo.db raises
+    DBInvalidUnicodeParameter, which no handler converts -> 500 (R15.14)."""
+
+    def test_provider_name(self):
+        try:
+            r = self.call('POST', '/resource_providers', {'name': '\ud800'})
+        except Exception as exc:
+            self.fail('escaped exception (500 via FaultWrapper): %r' % exc)
+        self.assertIn(r.status_int, (200, 201, 400))
+
+    def test_project_id(self):
+        cn1 = self._create_provider('cn1')
+        tb.add_inventory(cn1, orc.VCPU, 8)
+        body = {'allocations': {cn1.uuid: {'resources': {'VCPU': 1}}},
+                'project_id': '\ud800', 'user_id': 'u',
+                'consumer_generation': None}
+        try:
+            r = self.call(
+                'PUT', '/allocations/7b2a4bc1-0000-4000-8000-000000000001',
+                body)
+        except Exception as exc:
+            self.fail('escaped exception (500 via FaultWrapper): %r' % exc)
+        self.assertIn(r.status_int, (204, 400))
+
+    def test_user_id(self):
+        cn1 = self._create_provider('cn1')
+        tb.add_inventory(cn1, orc.VCPU, 8)
+        body = {'allocations': {cn1.uuid: {'resources': {'VCPU': 1}}},
+                'project_id': 'p', 'user_id': '\ud800',
+                'consumer_generation': None}
+        try:
+            r = self.call(
+                'PUT', '/allocations/7b2a4bc1-0000-4000-8000-000000000002',
+                body)
+        except Exception as exc:
+            self.fail('escaped exception (500 via FaultWrapper): %r' % exc)
+        self.assertIn(r.status_int, (204, 400))
+
+    def test_provider_trait_name(self):
+        cn1 = self._create_provider('cn1')
+        try:
+            r = self.call('PUT', '/resource_providers/%s/traits' % cn1.uuid,
+                          {'resource_provider_generation': cn1.generation,
+                           'traits': ['\ud800']})
+        except Exception as exc:
+            self.fail('escaped exception (500 via FaultWrapper): %r' % exc)
+        self.assertIn(r.status_int, (200, 400))
